@@ -44,6 +44,14 @@ has_deriv2 = z3.Function('has_deriv2', Fn, BoolS)
 dfn = z3.Function('dfn', Fn, Fn)        # the callable stored as .deriv
 d2fn = z3.Function('d2fn', Fn, Fn)      # the callable stored as .deriv2
 
+# eta(g): the plain Python function  lambda r: g(r)  — same values, same failures, no .deriv/.deriv2 attributes
+eta = z3.Function('eta', Fn, Fn)
+def eta_axioms():
+    g, r = z3.Const('g!eta', Fn), z3.Real('r!eta')
+    return [z3.ForAll([g, r], app(eta(g), r) == app(g, r), patterns=[app(eta(g), r)]),
+            z3.ForAll([g, r], raises(eta(g), r) == raises(g, r), patterns=[raises(eta(g), r)]),
+            z3.ForAll([g], z3.And(z3.Not(has_deriv(eta(g))), z3.Not(has_deriv2(eta(g)))), patterns=[eta(g)])]
+
 _fields = {}
 def field(cls, name, sort):
     """selector function for attribute `name` of objects of class `cls`"""
